@@ -889,6 +889,7 @@ func genProxyError() (string, error) {
 		stmts: map[string]string{
 			"sid := atomic.LoadUint32(&s.ID)":         "",
 			"err = types.ErrExit":                     "let err := true",
+			"err = nil":                               "let err := false",
 			"s.onUpstreamReset(s.resetReason.Load())": "let s := o.onUpstreamReset s",
 			"s.ResetStream(s.resetReason.Load())":     "let s := o.resetStream s",
 			"variable.SetString(s.context, types.VarProxyIsDirectResponse, types.IsDirectResponse)": "let s := o.markDirect s",
